@@ -69,6 +69,19 @@ func verifStartFaultyBackend() (addr string, stop func()) {
 					case strings.HasPrefix(p, "/setcookie-malformed"):
 						// a healthy response whose Set-Cookie lines net/http cannot parse (session tracking reads them)
 						fmt.Fprintf(c, "HTTP/1.1 200 OK\r\nSet-Cookie: novalue\r\nSet-Cookie: =x\r\nSet-Cookie: lang=\xe6\x97\xa5\xe6\x9c\xac\r\nSet-Cookie: a\\b=c\r\nSet-Cookie: sp ace=1\r\nSet-Cookie: ok=1; Path=/\r\nContent-Length: 2\r\n\r\nok")
+					case strings.HasPrefix(p, "/html-legacy-charset"):
+						// a healthy HTML page in a single-byte character set: bytes that are not UTF-8 before <head>, little after it
+						// (the shim-script splice and the banner look at the text of HTML responses)
+						page := "<!-- caf\xe9 na\xefve \xfc\xf6\xe4\xdf \xa9\xae\xb1\xb5\xe6\xf8\xe5\xc6\xd8\xc5 --><html><head></head></html>"
+						fmt.Fprintf(c, "HTTP/1.1 200 OK\r\nContent-Type: text/html; charset=iso-8859-1\r\nContent-Length: %d\r\n\r\n%s", len(page), page)
+					case strings.HasPrefix(p, "/html-head-at-end-of-read"):
+						// ... and one whose first piece ends right after <head>
+						fmt.Fprintf(c, "HTTP/1.1 200 OK\r\nContent-Type: text/html\r\nTransfer-Encoding: chunked\r\n\r\n")
+						first := "\xff\xfe\xfd<html><head>"
+						fmt.Fprintf(c, "%x\r\n%s\r\n", len(first), first)
+						time.Sleep(50 * time.Millisecond)
+						rest := "</head><body>\xe9</body></html>"
+						fmt.Fprintf(c, "%x\r\n%s\r\n0\r\n\r\n", len(rest), rest)
 					case strings.HasPrefix(p, "/malformed-status"):
 						fmt.Fprintf(c, "HTTP/1.1 abc nonsense\r\n\r\n")
 						return
@@ -135,7 +148,7 @@ func TestVerifC07(t *testing.T) {
 	for _, k := range []string{"neterr-x3", "500-x3", "neterr-then-ok", "404", "garbage", "badheader"} {
 		faults = append(faults, fault{"fetch", k})
 	}
-	for _, k := range []string{"unreachable", "close-before-headers", "close-mid-headers", "reset-mid-body", "close-mid-chunked", "malformed-status", "garbage", "bad-chunk", "huge-header", "status-099", "status-000", "status-999", "status-1000", "setcookie-malformed"} {
+	for _, k := range []string{"unreachable", "close-before-headers", "close-mid-headers", "reset-mid-body", "close-mid-chunked", "malformed-status", "garbage", "bad-chunk", "huge-header", "status-099", "status-000", "status-999", "status-1000", "setcookie-malformed", "html-legacy-charset", "html-head-at-end-of-read"} {
 		faults = append(faults, fault{"backend", k})
 	}
 	for _, k := range []string{"500-x3", "neterr-x3", "500-then-ok"} {
